@@ -39,6 +39,8 @@ def cases(tier):
     C.append(("InverseGamma/default, latent variable (neither parameter nor observed)", tfd.InverseGamma, dict(concentration=2.0, scale=0.5), ("default",), 1.3, ["auto"]))
     C.append(("HalfNormal/Exp", tfd.HalfNormal, dict(scale=1.5), ("instance", lambda: tfb.Exp()), 0.8, ["var"]))
     C.append(("Gamma vector (2,), per_obs=False / Exp", tfd.Gamma, dict(concentration=2.0, rate=0.5), ("instance", lambda: tfb.Exp()), (1.3, 0.6), ["var", "builder", "auto-default"]))
+    # distribution inputs handed over positionally (Dist.inputs instead of Dist.kwinputs): the transformed distribution has to carry both kinds over
+    C.append(("Gamma/Exp, positional dist inputs", tfd.Gamma, dict(concentration=2.0, rate=0.5), ("instance", lambda: tfb.Exp()), 1.3, ["var", "builder", "auto-default"]))
     if tier == "thorough":
         C.append(("Gamma/Exp", tfd.Gamma, dict(concentration=2.0, rate=0.5), ("instance", lambda: tfb.Exp()), 1.3, ["var", "builder"]))
         C.append(("HalfCauchy/Softplus", tfd.HalfCauchy, dict(loc=0.0, scale=25.0), ("instance", lambda: tfb.Softplus()), 1.3, ["var"]))
@@ -51,7 +53,7 @@ def build(label, D, params, bij, v0, entry):
     import liesel.model as lsl
     pv = {k: lsl.Var(v, name=f"p_{k}") for k, v in params.items()}
     vec = isinstance(v0, tuple)
-    dist = lsl.Dist(D, **pv)
+    dist = lsl.Dist(D, *pv.values()) if "positional dist inputs" in label else lsl.Dist(D, **pv)
     if vec:
         dist.per_obs = False
     latent = "latent" in label           # a variable that is neither a parameter nor observed: there is no flag to move
